@@ -79,6 +79,7 @@ def harnesses(tier):
     hs.append({"id": "run/K2/r2", "params": {"kind": "run", "k": 2, "regions": 2}, "timeout": 900})
     hs.append({"id": "run/K2/r2-other-contig", "params": {"kind": "run", "k": 2, "regions": 2, "other": True}, "timeout": 900})
     hs.append({"id": "run/K2/r3-revisit-contig", "params": {"kind": "run", "k": 2, "regions": 3, "other": True}, "timeout": 1800})
+    hs.append({"id": "search/digits", "params": {"kind": "digits", "k": 3}, "timeout": 600})
     if tier == "thorough":
         hs.append({"id": "run/K3/r2", "params": {"kind": "run", "k": 3, "regions": 2}, "timeout": 2400})
         hs.append({"id": "run/K2/r3", "params": {"kind": "run", "k": 2, "regions": 3}, "timeout": 2400})
@@ -136,7 +137,40 @@ def region_str(contig, a, b):
     return rt.vp_fmt_("%s:%d-%d", (contig, a, b))
 
 
+DIGIT_NODES = [(2, 12), (95, 106), (990, 1005)]
+DIGIT_BOUNDS = [0, 2, 5, 9, 10, 11, 95, 100, 105, 989, 1000, 1004]
+
+
+def pickv(sel, options):
+    for i, o in enumerate(options):
+        if sel == i:
+            return o
+    return options[-1]
+
+
+def build_digits():
+    """region bounds with different numbers of digits, as literal text (not renderings of symbolic integers)"""
+    def case(sa, sb):
+        V = M["V"]
+        a = pickv(sa, DIGIT_BOUNDS)
+        b = pickv(sb, DIGIT_BOUNDS)
+        if a > b:
+            return "SKIP"
+        items = [(("x%d" % i, "chr1", s, e), [i]) for i, (s, e) in enumerate(DIGIT_NODES)]
+        idx = AssocIndex(items + [("ref_contig", ["chr1"])])
+        want = ["x%d" % i for i, (s, e) in enumerate(DIGIT_NODES) if s <= b and a < e]
+        got = V.get_unstable(["chr1:%d-%d" % (a, b)], idx)
+        if sorted(got) != want:
+            return "region chr1:%d-%d covers %r but get_unstable returned %r" % (a, b, want, list(got))
+        return None
+
+    n = len(DIGIT_BOUNDS) - 1
+    return Harness([("sa", "int"), ("sb", "int")], ["0 <= sa <= %d and 0 <= sb <= %d" % (n, n)], case, fuel=40)
+
+
 def build(params):
+    if params["kind"] == "digits":
+        return build_digits()
     k = params["k"]
     largs, lpre = layout_args(k)
     if params["kind"] == "search":
@@ -241,8 +275,15 @@ def replay(params, model, wd):
 
     k = params["k"]
     a_ = model["args"]
-    ivs, used = decode_layout(k, a_)
-    if params["kind"] == "search":
+    if params["kind"] == "digits":
+        a, b = DIGIT_BOUNDS[a_[0]], DIGIT_BOUNDS[a_[1]]
+        ivs = list(DIGIT_NODES)
+        regs = [("chr1", a, b)]
+    else:
+        ivs, used = decode_layout(k, a_)
+    if params["kind"] == "digits":
+        pass
+    elif params["kind"] == "search":
         regs = [("chr1", a_[used], a_[used + 1])]
     else:
         regs = []
